@@ -12,6 +12,10 @@
 //     priority; construction from initial lists with duplicate keys (each distinct key once,
 //     Priority(k) one of the priorities listed for k).
 //
+// Key / priority / element types include ones that are NOT comparable with == (P = []byte ordered
+// by bytes.Compare itself, P = struct holding a slice, P = any holding ints and slices; T = []int
+// ordered by sum, T = any); the model compares them with a deep equality supplied per type.
+//
 // Orders are given as less (New, NewPriorityQueue) and as compare (NewCmp, NewPriorityQueueCmp),
 // ascending, descending (reversed) and coarse (many priorities equivalent).
 //
@@ -41,6 +45,7 @@ func main() {
 		r.Assume("for a key listed several times in the initial slice, any of the listed priorities is accepted")
 		r.Assume("which of several minimal elements Peek/Pop hand out is not judged; Iterate() is not judged here (C15)")
 		r.Assume("Grow / Shrink are called with n >= 0 only")
+		r.Assume("priorities and heap elements are compared by a deep equality supplied per type (P and T need not be comparable with ==; K is)")
 		run(r)
 	})
 }
@@ -321,6 +326,15 @@ func run(r *vkit.Report) {
 	fl("heap Grow", "ops", "Heap.Grow", 200)
 	fl("heap Shrink", "ops", "Heap.Shrink", 200)
 	fl("queue Grow", "ops", "PQ.Grow", 200)
+	for _, t := range []string{"K=int,P=int", "K=string,P=int", "K=struct,P=struct", "K=int,P=float64",
+		"K=string,P=[]byte", "K=int,P=struct{w []int; n int}", "K=struct,P=any(int|[]int)"} {
+		fl("queue histories with types "+t, "queue key/priority types", t, 500)
+		fl("queue Update of a present key with types "+t, "queue Update of a present key by types", t, 5000)
+	}
+	for _, t := range []string{"T=struct", "T=[]int by sum", "T=any(struct|[]int)"} {
+		fl("heap histories with element type "+t, "heap element types", t, 500)
+	}
+	fl("queues ordered by bytes.Compare itself", "queue construction", "order given as the library function itself (bytes.Compare)", 50)
 	for _, o := range orders {
 		for _, ct := range ctors {
 			fl("heap histories with order "+o.name+" given as "+ct, "heap configurations", o.name+"/"+ct, 100)
